@@ -690,6 +690,16 @@ class C16(Prop):
                 for i in range(a, a + span):
                     r[i] = base[i] if (i in (a, a + span - 1) or rng.random() < 0.8) else rng.choice(gaps)   # inner gaps do not shorten the span
                 rows.insert(rng.randrange(len(rows) + 1), r)
+            if kind == "samp" and alen >= 6 and rng.random() < 0.6:
+                # two groups of rows covering the left / the right part with a short overlap, low fragthresh (nobody is a fragment):
+                # the consensus of all rows and that of a 1-2 row sample differ, and so do the conscover keys of IDFilter_adv
+                ft = rng.choice([0.0, 0.3]); ms = int(math.ceil(f32(f32(ft) * f32(float(alen)))))
+                a_ = rng.randrange(alen // 2, alen - 1); b_ = rng.randrange(1, a_)
+                g = gaps[0]; core = [rng.choice(res[:3]) for _ in range(alen)]
+                rows = []
+                for k in range(rng.randrange(3, 9)):
+                    left = k % 2 == 0 or rng.random() < 0.3
+                    rows.append([(core[i] if rng.random() < 0.8 else rng.choice(res[:3])) if ((i < a_) if left else (i >= b_)) else g for i in range(alen)])
             if rng.random() < 0.3 and alen > 2:                     # all-gap column strictly inside
                 col = rng.randrange(1, alen - 1)
                 for r in rows: r[col] = rng.choice(gaps)
@@ -709,7 +719,8 @@ class C16(Prop):
                     a = "irf=%d ft=%s sf=%s" % (1 if rf is not None and rng.random() < 0.7 else 0, f32bits(ft), f32bits(rng.choice([0.5, 0.5, 0.0, 1.0, 0.3])))
                     if kind == "samp" or rng.random() < 0.4:
                         st = n + rng.choice([-2, -1, -1, 0, 0, 1])
-                        a += " as=%d st=%d ns=%d mf=%d seed=%d" % (rng.choice([1, 1, 1, 0]), st, max(1, n + rng.choice([-1, 0, 1, 5])),
+                        # nsamp small as well as around nseq: a sample of 1-2 rows gives a consensus (hence conscover keys) unlike that of all rows
+                        a += " as=%d st=%d ns=%d mf=%d seed=%d" % (rng.choice([1, 1, 1, 0]), st, max(1, rng.choice([1, 1, 2, n // 2, n - 1, n, n + 1, n + 5])),
                                                                    max(0, nfr + rng.choice([-1, 0, 0, 1])), rng.choice([42, 1, 7, rng.randrange(1, 1 << 62)]))
                     comp.append("pbadv " + a)
                     comp.append("idfilteradv maxid=%s pref=%d %s%s" % (dbits(th[2]), rng.choice([1, 1, 2, 3]), a, "" if "seed=" in a else " seed=42"))
